@@ -237,8 +237,13 @@ struct ModelOps {
         if (M.nsub == 0) return false;
         int g = M.sub[s].stage + 1;
         if (g > REP) return false;
-        if (g <= INST)
-            for (int o : F.order) { if (o == s) break; if (M.sub[o].stage < g) return false; }
+        if (g <= INST) {
+            // allocation stages are realized in lockstep, in the fixture's subsystem order (as a System does): subsystems earlier
+            // in the order have finished stage g, later ones have finished stage g-1 -- so every prerequisite exists when its
+            // dependent is allocated and outlives it
+            bool before = true;
+            for (int o : F.order) { if (o == s) { before = false; continue; } if (M.sub[o].stage < (before ? g : g - 1)) return false; }
+        }
         return true;
     }
     bool canAdvSys(const Model& M) const {
@@ -972,7 +977,7 @@ void bfs(verif::Run& run, const Case& cs, int maxDepth, int64_t maxStates, int p
 // ------------------------------------------------------------------ main
 int main(int argc, char** argv) {
     verif::Run run("C18", argc, argv);
-    run.setDeadline(150, 2400);
+    run.setDeadline(600, 3000);
     run.maxSamples = 40;
     const bool thorough = run.thorough();
     long seed = run.replaying() && !run.replayField("seed").empty() ? atol(run.replayField("seed").c_str()) : run.seed;
@@ -1074,6 +1079,15 @@ int main(int argc, char** argv) {
     for (auto& E : engines) for (auto& B : bases) cases.push_back(Case{&E, &B, computePrefix(E, B)});
     auto caseOf = [&](int fx, int b) -> const Case& { return cases[fx * bases.size() + b]; };
 
+    for (const std::string& a : run.extra) if (a.rfind("--bfs-item=", 0) == 0) {     // development: one BFS item in-process
+        int idx = atoi(a.c_str() + 11); int fx = idx / (int)bases.size(), b = idx % (int)bases.size();
+        Tally t; int d = bfsDefault, pd = plainDefault; int64_t cap = capDefault;
+        for (auto& bc : bfsCfg) if (bc.fx == fx) { d = bc.depth; cap = bc.cap; }
+        fprintf(stderr, "bfs item %d: fixture=%s base=%s depth=%d cap=%lld\n", idx, engines[fx].F.name.c_str(), bases[b].name.c_str(), d, (long long)cap);
+        bfs(run, caseOf(fx, b), d, cap, pd, t);
+        run.exhaustive = false;
+        return run.finish();
+    }
     // ---- section 1: plain enumeration, sharded over (fixture, base, first operation)
     struct PItem { int fx, b, op, depth; };
     std::vector<PItem> pitems;
